@@ -422,3 +422,113 @@ Section Observe.
 End Observe.
 
 Definition run_case (ops : list op) : val := run_case_with validate ops.
+
+(* ======================================================================= *)
+(* The hand-over of the table to policy evaluation (property C12, "the validation
+   state used by policy"), over histories of assignment operations.
+
+   table/src/policy.rs  PolicyTable::{build_assignment, add_assignment, set_policy_assignment,
+                        delete_policy_assignment}, PolicyAssignment::{without_policies,
+                        compute_needs_rpki}
+   daemon/src/table_manager.rs  TableManager::apply_import:
+                        let rpki = policy.needs_rpki.then(|| self.rpki.read().unwrap());
+   daemon/src/event/mod.rs  PeerSession::handle_prefix_update:
+                        export_policy (per peer, else global) .filter(|p| p.needs_rpki).map(|_| rpki)
+
+   The harness fixes five policies: 0, 1, 2 = one statement `rpki not-found | valid | invalid
+   -> accept`; 3, 4 = one statement without an rpki condition that matches no generated
+   route.  Every assignment has default action reject. *)
+Definition pol_state (p : N) : option vstate :=
+  if p =? 0 then Some NotFound else if p =? 1 then Some Valid else if p =? 2 then Some Invalid else None.
+
+Definition pol_has_rpki (p : N) : bool := match pol_state p with Some _ => true | None => false end.
+
+(* compute_needs_rpki, always over the FINAL policy list of the assignment *)
+Definition needs_rpki (l : list N) : bool := existsb pol_has_rpki l.
+
+Definition asg : Type := option (list N).
+
+Inductive akind := AAdd | ASet | ADel | ADelAll.
+
+Definition mem_n (p : N) (l : list N) : bool := existsb (N.eqb p) l.
+
+(* one assignment operation on one slot: the new slot and whether the call returned Ok *)
+Definition asg_step (k : akind) (names : list N) (a : asg) : asg * bool :=
+  match k with
+  | AAdd =>
+      match a with
+      | None => (Some names, true)
+      | Some old =>
+          if existsb (fun p => mem_n p names) old then (a, false)       (* "policy already exists" *)
+          else (Some (names ++ old), true)
+      end
+  | ASet => (Some names, true)
+  | ADel =>
+      match a with
+      | None => (a, false)                                              (* NotFound *)
+      | Some old => (Some (filter (fun p => negb (mem_n p names)) old), true)
+      end
+  | ADelAll => (None, true)
+  end.
+
+(* evaluation of an assignment on a route: no assignment = not filtered; otherwise the
+   statements `rpki k -> accept` see the table iff needs_rpki, default reject *)
+Definition asg_accepts (t : rtab) (local_asn : N) (n : net) (attrs : list (N * list N)) (a : asg) : pres bool :=
+  match a with
+  | None => POk true
+  | Some l =>
+      if needs_rpki l then
+        match validate t local_asn n attrs with
+        | PPanic => PPanic
+        | POk r => POk (existsb (fun p => match pol_state p with Some k => cond_of r k | None => false end) l)
+        end
+      else POk false             (* Condition::Rpki with rpki = None never holds; policies 3, 4 never match *)
+  end.
+
+Record slots := { sl_import : asg; sl_export : asg; sl_peer : asg }.
+
+Definition akind_of (k : N) : akind :=
+  if k =? 0 then AAdd else if k =? 1 then ASet else if k =? 2 then ADel else ADelAll.
+
+Definition slots_step (s : slots) (st : N * N * list N) : slots * bool :=
+  let '(slot, k, names) := st in
+  if slot =? 0 then
+    let (a, ok) := asg_step (akind_of k) names (sl_import s) in
+    ({| sl_import := a; sl_export := sl_export s; sl_peer := sl_peer s |}, ok)
+  else if slot =? 1 then
+    let (a, ok) := asg_step (akind_of k) names (sl_export s) in
+    ({| sl_import := sl_import s; sl_export := a; sl_peer := sl_peer s |}, ok)
+  else
+    let (a, ok) := asg_step (akind_of k) names (sl_peer s) in
+    ({| sl_import := sl_import s; sl_export := sl_export s; sl_peer := a |}, ok).
+
+Fixpoint slots_run (s : slots) (sts : list (N * N * list N)) : slots * list bool :=
+  match sts with
+  | [] => (s, [])
+  | st :: rest =>
+      let (s1, ok) := slots_step s st in
+      let (s2, oks) := slots_run s1 rest in (s2, ok :: oks)
+  end.
+
+Definition v_slot (a : asg) : val := VOpt (fun l => VL [VB (needs_rpki l); VNs l]) a.
+
+Fixpoint v_routes (t : rtab) (s : slots) (routes : list (net * N * list (N * list N))) : pres (list val) :=
+  match routes with
+  | [] => POk []
+  | (n, la, attrs) :: rest =>
+      let peer := match sl_peer s with Some l => Some l | None => sl_export s end in
+      match asg_accepts t la n attrs (sl_import s), asg_accepts t la n attrs (sl_export s),
+            asg_accepts t la n attrs peer, v_routes t s rest with
+      | POk i, POk ea, POk eb, POk vs => POk (VL [VB i; VB ea; VB eb] :: vs)
+      | _, _, _, _ => PPanic
+      end
+  end.
+
+Definition run_policy_case (ops : list op) (sts : list (N * N * list N))
+           (routes : list (net * N * list (N * list N))) : val :=
+  let t := run_ops ops rtab_new in
+  let (s, oks) := slots_run {| sl_import := None; sl_export := None; sl_peer := None |} sts in
+  match v_routes t s routes with
+  | PPanic => VL [VI (-1)%Z]
+  | POk vs => VL [VL [v_slot (sl_import s); v_slot (sl_export s); v_slot (sl_peer s)]; VList VB oks; VL vs]
+  end.
